@@ -40,6 +40,7 @@ def answerRestart (shard : Nat) (toks : List String) : String :=
         (ids ++ IdGen.run IdGen.Gen.init (readings ++ fallback) shard readings.length, obs)
       | none => (ids, "bad-op" :: obs)
     | ["F"] => (ids, obs)
+    | ["C"] => (ids, obs)   -- a compaction round: ids are carried over unchanged
     | ["Q"] =>
       let d := Snel.IdGen.sortDedup ids
       (ids, (",".intercalate (d.map toString)) :: obs)
